@@ -128,6 +128,8 @@ def to_script(rows, events):
         elif e[0] == "destroy":
             lines.append("destroy %d" % e[1])
             index.append((None, "destroy %d" % e[1]))   # prints the view of `cur`, not part of a transcript
+        elif e[0] == "snap":
+            lines.append("snapuser " + e[1])         # no output line
         elif e[0] == "cleanup_all":
             lines.append("cleanup_all")
             index.append((None, "cleanup_all"))
@@ -269,6 +271,19 @@ def run(c):
             ev += [("op", 1, "key 49 5")] * hops + [("op", 1, x) for x in probe]
             ev += [("op", 2, "key 49 5")] + [("op", 2, x) for x in probe] + [("op", 0, x) for x in probe]
             directed.append(ev)
+    # directed: a session created AFTER another one changed a saved option without persisting it (set_option / key binder
+    # toggle: nothing is written to user.yaml) must start from the persisted settings; and a session on a sibling schema
+    # (same dictionary, other prism) is destroyed while the first one goes on typing
+    for setter in (["option full_shape 1"], ["option ascii_punct 1"], ["key 51 5"], ["key 52 5"], ["option full_shape 1", "option ascii_punct 1"]):
+        ev = [("new", 0, "vs_full"), ("new", 1, "vs_full")] + [("op", 0, x) for x in setter] + [("op", 0, "key 110 0"), ("op", 0, "key 65307 0")]
+        ev += [("snap", os.path.join(c.work, "snap_d%d.yaml" % len(directed))), ("new", 2, "vs_full")]
+        ev += [("op", 2, x) for x in probe] + [("op", 1, x) for x in probe] + [("op", 0, x) for x in probe]
+        directed.append(ev)
+    for first, second in (("vs_full", "vs_full2"), ("vs_full2", "vs_full"), ("vs_full", "vs_full")):
+        for warm in ([], ["key 110 0", "key 105 0", "key 32 0", "read_commit"]):
+            ev = [("new", 0, first), ("new", 1, second)] + [("op", 0, x) for x in warm] + [("op", 1, x) for x in warm]
+            ev += [("destroy", 1)] + [("op", 0, x) for x in probe] + [("op", 0, x) for x in ["key 104 0", "key 97 0", "key 111 0", "key 32 0", "read_commit"]]
+            directed.append(ev)
     n_groups = max(2, groups // 3)
     for g in range(len(directed) + n_groups):
         n_s = 3
@@ -279,8 +294,32 @@ def run(c):
             # all sessions exist before the first call (what is persisted at creation is the template's for each of them)
             events = [("new", k, c.rng.choice(["vs_full", "vs_full", "vs_full2"])) for k in range(n_s)]
             pos = [0] * n_s
-            while any(pos[k] < len(scripts[k]) for k in range(n_s)):
-                k = c.rng.choice([k for k in range(n_s) if pos[k] < len(scripts[k])])
+            total = sum(len(x) for x in scripts)
+            # one session is destroyed on the way (its remaining calls are dropped) and one more is created later, after the
+            # others have made calls: what it may depend on is the user settings PERSISTED at that moment (copied aside by the
+            # harness), not what other live sessions hold in memory
+            kill_at, kill_k = c.rng.randrange(total // 4, total // 2), c.rng.randrange(n_s)
+            late_at, late = c.rng.randrange(total // 3, 2 * total // 3), None
+            late_script = gen_stock_ops(c.rng, n_ops // 2)
+            done = 0
+            dead_k = set()
+            while any(pos[k] < len(scripts[k]) for k in range(n_s) if k not in dead_k) or (late is not None and pos[late] < len(scripts[late])):
+                if done == kill_at:
+                    events.append(("destroy", kill_k))
+                    dead_k.add(kill_k)
+                if done == late_at and late is None:
+                    late = n_s
+                    scripts.append(late_script)
+                    pos.append(0)
+                    events.append(("snap", os.path.join(c.work, "snap_g%d.yaml" % g)))
+                    events.append(("new", late, c.rng.choice(["vs_full", "vs_full2"])))
+                live_k = [k for k in range(len(scripts)) if k not in dead_k and pos[k] < len(scripts[k])]
+                done += 1
+                if not live_k:
+                    if late is None and done <= late_at:
+                        continue
+                    break
+                k = c.rng.choice(live_k)
                 events.append(("op", k, scripts[k][pos[k]]))
                 pos[k] += 1
         script, index = to_script([], events)
@@ -303,6 +342,9 @@ def run(c):
         for k in sorted(ti):
             sscript, sindex = to_script([], solo_events(events, k))
             d3 = fresh()
+            snap = next((e[1] for i, e in enumerate(events) if e[0] == "snap" and i + 1 < len(events) and events[i + 1][:2] == ("new", k)), None)
+            if snap and os.path.exists(snap) and os.path.getsize(snap) > 0:
+                shutil.copy(snap, os.path.join(d3, "user.yaml"))      # the settings persisted when this session was created
             rc3, out3 = sc.run_impl(exe, d3, _write(c, "fso%d_%d" % (g, k), sscript))
             shutil.rmtree(d3, ignore_errors=True)
             simpl = [l for l in out3.splitlines() if l.startswith("ret=") or l.startswith("ids ")]
@@ -341,11 +383,17 @@ def replay(c, r):
         tpl = c1.make_full_workspace(os.path.join(c.work, "fws_tpl"), user_dict=False, second_prism=True)
         sc.run_impl(exe, tpl, _write(c, "warm", "new\nschema vs_full\nnew\nschema vs_full2\n"))
         runs = []
+        events = [("snap", os.path.join(c.work, os.path.basename(e[1]))) if e[0] == "snap" else e for e in events]
         script, index = to_script([], events)
         ks = [r["session"]] if r.get("session") is not None else sorted({e[1] for e in events if e[0] == "new"})
         for tag, (sx, ix) in [("a", (script, index)), ("b", (script, index))] + [("s%d" % k, to_script([], solo_events(events, k))) for k in ks]:
             d = os.path.join(c.work, "rp_" + tag)
             shutil.copytree(tpl, d)
+            if tag.startswith("s"):
+                kk = int(tag[1:])
+                snap = next((e[1] for i, e in enumerate(events) if e[0] == "snap" and i + 1 < len(events) and events[i + 1][:2] == ("new", kk)), None)
+                if snap and os.path.exists(snap) and os.path.getsize(snap) > 0:
+                    shutil.copy(snap, os.path.join(d, "user.yaml"))
             rc, out = sc.run_impl(exe, d, _write(c, "rp_" + tag, sx))
             runs.append((tag, rc, transcripts(ix, [l for l in out.splitlines() if l.startswith("ret=") or l.startswith("ids ")])))
         bad = any(rc for _, rc, _ in runs) or runs[0][2] != runs[1][2]
